@@ -225,7 +225,7 @@ def cases(draw):
                 zone2 = draw(st.sampled_from(same))
         return {"zone": zone, "zone2": zone2,
                 "start": [start.year, start.month, start.day, start.hour, start.minute], "values": vals[:72],
-                "level": level}
+                "level": level, "delay_h": draw(st.sampled_from([0, 0, 1, 2, 3]))}
     return {"zone": zone, "start": [start.year, start.month, start.day, start.hour, start.minute], "values": vals,
             "level": level}
 
@@ -297,7 +297,13 @@ def check_two_zones(c, ctx, labels):
     start = datetime(*c["start"])
     srv = Server.from_defaults("srv", storage=Storage.from_defaults("st"))
     job = Job.from_defaults("job", server=srv)
-    uj = UsageJourney("uj", [UsageJourneyStep("s", SourceValue(1 * u.min), [job])])
+    # the job may sit behind a first step of a whole number of hours: its occurrences are then the combined UTC series
+    # moved by that delay, hole of a fall-back transition included
+    delay = int(c.get("delay_h", 0))
+    steps = [UsageJourneyStep("s", SourceValue(1 * u.min), [job])]
+    if delay:
+        steps.insert(0, UsageJourneyStep("wait", SourceValue(delay * u.hour), []))
+    uj = UsageJourney("uj", steps)
     ups = []
     for i, z in enumerate((c["zone"], c["zone2"])):
         cty = Country("c%d" % i, "C", SourceValue(100 * u.g / u.kWh), SourceObject(pytz.timezone(z)))
@@ -315,6 +321,7 @@ def check_two_zones(c, ctx, labels):
             ctx.violation("wrong_conversion", c, "%s (usage pattern in %s): %s" % (z, z, "; ".join(probs[:2])),
                           {"kind": "wrong_conversion", "what": "two_zones"})
         for ts, v in zip(df.index, vals):
+            ts = ts + timedelta(hours=delay)
             expected[ts] = expected.get(ts, 0.0) + float(v)
     got = job.hourly_occurrences_across_usage_patterns.value
     gvals = np.asarray(got["value"].values.quantity.magnitude, dtype=float)
